@@ -61,6 +61,21 @@ def runPure (j : PJson) (B : List SStmt) : PJson :=
     let st : State World := { globals := injectLib g, world := w, count := 0 }
     resToJson (StructuredS.runS scfg (j.natD "fuel" 3000) B st)
 
+/-- nesting depth of every line (the layout of `C01.printPretty`, BareProofs/C01Source.lean) -/
+def depthOfLines : List Line → Nat → List (Nat × Line)
+  | [], _ => []
+  | l :: ls, d =>
+    match l with
+    | .funcBegin .. | .ifBegin _ | .whileBegin _ | .forBegin .. => (d, l) :: depthOfLines ls (d + 1)
+    | .funcEnd | .endif | .endwhile | .endfor => (d - 1, l) :: depthOfLines ls (d - 1)
+    | .elif _ | .else_ => (d - 1, l) :: depthOfLines ls d
+    | _ => (d, l) :: depthOfLines ls d
+
+/-- the program text with 4 blanks of indentation per nesting level -/
+def prettyText (B : List SStmt) : String :=
+  "\n".intercalate ((depthOfLines (renderB B) 0).map fun p =>
+    String.ofList (List.replicate (4 * p.1) ' ') ++ PrintScript.printLine Print.printExpr p.2)
+
 def handleC01 (j : PJson) : PJson :=
   match j.strD "op" with
   | "lower" =>
@@ -78,6 +93,7 @@ def handleC01 (j : PJson) : PJson :=
       | some B =>
         -- `printable` = the decidable hypothesis `C01.SourcePrintable` of `C01.parseScript_printExpr`
         mk [("text", .str (PrintScript.printScript Print.printExpr B)),
+            ("pretty", .str (prettyText B)),
             ("printable", .bool (PrintScript.ProgPrintable Print.printExpr B && PrintScript.ProgExprsOK Print.printable B))]
   | "exec" =>
       match scriptOfJson (j.getD "script") with
